@@ -556,6 +556,7 @@ fn advance(c: &mut Chain, cx: &mut Ctx, target: i64, dense: bool) {
 fn fil(n: i64) -> TokenAmount { TokenAmount::from_whole(n) }
 
 const LONG_FAULT_SEQ: u64 = 1_000_000;
+const REWARD_MATURITY_SEQ: u64 = 1_000_001;
 fn cx_seq_tag() -> u64 { 1 }
 
 /// Operations beyond the basic sector life cycle: storage deals (publish, pre-commit with data,
@@ -740,9 +741,10 @@ pub fn run(cfg: &RunCfg, which: Which) -> Report {
     let mut seqs: Vec<u64> = match cfg.only_seq { Some(k) => vec![k], None => (0..nseq).collect() };
     // scripted scenario (C05/C03): sectors left faulty for the whole fault_max_age (42 proving periods)
     if cfg.only_seq.is_none() && which != Which::C01 { seqs.push(LONG_FAULT_SEQ); }
+    if cfg.only_seq.is_none() && which == Which::C03 { seqs.push(REWARD_MATURITY_SEQ); }
     for seq in seqs {
         let mut r = seq_rng(cfg.seed, seq);
-        let scripted = seq == LONG_FAULT_SEQ;
+        let scripted = seq == LONG_FAULT_SEQ || seq == REWARD_MATURITY_SEQ;
         let mut c = Chain::new(6);
         c.set_epoch(r.range(1, 40));
         let dense = r.chance(1, 4) && !scripted;
@@ -785,7 +787,7 @@ pub fn run(cfg: &RunCfg, which: Which) -> Report {
                     }
                 }
                 let cap = if scripted { fil(5000) } else if r.chance(1, 6) { fil(50) } else { fil(r.range(1, 4) * 2500) };
-                let immediate = r.chance(1, 2) || scripted;
+                let immediate = (r.chance(1, 2) || scripted) && seq != REWARD_MATURITY_SEQ;
                 record_balances(&c);
                 exec(&mut c, &mut cx, format!("fund miner={} value={}", mi, cap.atto()), false, false, |c| c.send_funds(mi, &cap));
                 if immediate {
@@ -814,8 +816,22 @@ pub fn run(cfg: &RunCfg, which: Which) -> Report {
                 exec(&mut c, &mut cx, format!("market_add_balance for=client{} value=500", ci), false, false, |c| c.market_add_balance(&a, &a, &fil(500)));
             }
         }
-        if scripted {
+        if seq == LONG_FAULT_SEQ {
             long_fault_script(&mut c, &mut cx, &mut pending);
+            proven_any = true;
+        }
+        if seq == REWARD_MATURITY_SEQ {
+            // block rewards reaching a miner whose vesting table holds matured, not yet unlocked
+            // entries (a miner without a running cron: nothing unlocks them in between)
+            let mi = 0usize;
+            for days in [0i64, 3, 10, 11] {
+                let t = c.epoch() + days * 2880 + 100;
+                advance(&mut c, &mut cx, t, false);
+                record_balances(&c);
+                exec(&mut c, &mut cx, format!("award_block_reward miner={} penalty=0 gas=0 wins=1", mi), false, false, |c| c.award_block_reward(mi, &TokenAmount::zero(), &TokenAmount::zero(), 1));
+                record_balances(&c);
+                exec(&mut c, &mut cx, format!("withdraw miner={} owner=true amount=1", mi), false, false, |c| c.withdraw(mi, true, &TokenAmount::from_atto(1)));
+            }
             proven_any = true;
         }
         for _step in 0..(if scripted { 0 } else { steps }) {
